@@ -19,7 +19,7 @@ PROP = dict(
 )
 
 MANIFEST = dict(
-    text="Coq theorems (Properties/C01.v, 15 obligations, all closed under the global context). "
+    text="Coq theorems (Properties/C01.v, 16 obligations, all closed under the global context). "
          "move_refines_rules64: for every position satisfying the invariant pos_ok (bitboards/heights/stack words describe a board with only "
          "flats below the tops, stacks <= 64, byte reserves, canonical stack words, hash = from-scratch formula) and EVERY raw Move value other than "
          "Pass (any int8 coordinates, type code, Slides word) whose rules successor has no stack above 64, the bit-level model of the repaired "
@@ -37,4 +37,4 @@ MANIFEST = dict(
     note="Trusted: Coq kernel, extraction (ExtrOcamlBasic), hand transcription of tak/move.go (validated by execution only), generators. "
          "The height hypothesis is now the exact limit of the 64-bit stack words (first version: 64 - size): a drop that raises a stack above 64 "
          "succeeds in the code and silently loses the bottom pieces' colours (sizes 7 and 8 have 84 and 104 pieces, so such positions are "
-         "reachable in principle); nothing in the code checks it. Not proved here: wf of FromSquares/TPS imports of arbitrary boards (C10), Pass.")
+         "reachable in principle); nothing in the code checks it - over64_refuted is a machine-checked witness (63-high stack + 3 on 3x3). Not proved here: wf of FromSquares/TPS imports of arbitrary boards (C10), Pass.")
